@@ -433,3 +433,24 @@ Proof.
     unfold update_min_max, bottom_right. cbn [sz sw]. cbn. apply IH. intros l' p' Hin. apply (H l' p'). right. exact Hin. }
   rewrite E by exact He. reflexivity.
 Qed.
+
+(* ====================================================================== zero-width fonts (the null font) *)
+Theorem text_draw_zero_width F s ts pos text :
+  f_cw (mf_geom F) = 0 -> f_sp (mf_geom F) = 0 -> fst (text_draw F s ts pos text) = [].
+Proof.
+  intros H1 H2. unfold text_draw. generalize (text_lines (mf_geom F) s ts pos text) as ls. generalize pos as next.
+  intros next ls. revert next. induction ls as [|[l p] ls IH]; intros next; [reflexivity|].
+  cbn [draw_lines fst]. rewrite draw_string_zero_width by assumption. cbn [fst snd]. apply IH.
+Qed.
+
+Theorem text_bbox_zero_width f s ts pos text :
+  f_cw f = 0 -> f_sp f = 0 -> text_bbox f s ts pos text = R pos (S 0 0).
+Proof.
+  intros H1 H2. unfold text_bbox.
+  assert (E : forall ls,
+              fold_left (fun acc lp => update_min_max acc (fst (measure_string f s (fst lp) (snd lp) (t_base ts)))) ls None = None).
+  { induction ls as [|[l p] ls IH]; [reflexivity|]. cbn [fold_left fst snd].
+    rewrite measure_string_eq by lia. cbn [fst]. rewrite line_width_zero by assumption.
+    unfold update_min_max, bottom_right. cbn [sz sw]. cbn. apply IH. }
+  rewrite E. reflexivity.
+Qed.
